@@ -3,6 +3,7 @@ package props
 import (
 	"bytes"
 	"fmt"
+	"io"
 	"math/rand"
 	"net"
 	"testing"
@@ -31,7 +32,8 @@ func init() {
 	sim.RegisterKind("bind-deadline", "C16")
 	sim.RegisterKind("pipe-bytes", "C16")
 	sim.RegisterKind("pipe-close", "C16")
-	sim.RegisterKind("server-wedged", "C16", "C18")
+	sim.RegisterKind("server-wedged", "C16", "C18", "C06")
+	sim.RegisterKind("alloc-expiry-late", "C06", "C16")
 	sim.RegisterKind("client-tcp", "C16", "C13")
 	sim.RegisterKind("conn-open-after-death", "C15", "C16")
 }
@@ -559,6 +561,81 @@ func (x *c16) opDeadline() {
 	x.rec.FP("deadline/late=%v", late)
 }
 
+// runSlowConnect: a Connect whose outgoing dial takes 20 s (slow or unanswering peer) is pending
+// while another client's allocation reaches the end of its lifetime: that allocation must still
+// end on time (C06), stop relaying, and the server must keep answering; afterwards the Connect
+// completes normally.
+func runSlowConnect(t *testing.T, rng *rand.Rand, rec *sim.Rec, tier string, caseNo int) {
+	cfg := sim.Config{
+		Realm: "verif.test", Users: map[string]string{"alice": "pw-a", "bob": "pw-b"},
+		TCPListeners: []*net.TCPAddr{{IP: sim.ServerIP4, Port: 3478}},
+		UDPListeners: []*net.UDPAddr{{IP: sim.ServerIP4, Port: 3478}},
+	}
+	w, err := sim.NewWorld(cfg, rec, rng, true)
+	if err != nil {
+		t.Fatal(err)
+	}
+	defer w.Shutdown()
+	m := sim.NewModel(w)
+	tc, err := w.NewTCPClient("t0", net.IPv4(10, 1, 1, 1).To4(), 6000, 0, "alice")
+	if err != nil {
+		t.Fatal(err)
+	}
+	uc, _ := w.NewUDPClient("c1", net.IPv4(10, 1, 0, 1).To4(), 5000, 0, "bob")
+	life := uint32(3 + rng.Intn(12))
+	if r := m.Allocate(tc, sim.AllocOpts{Transport: 6}); r == nil || r.Class != wire.ClassSuccess {
+		rec.Inconclusive("tcp allocate failed")
+
+		return
+	}
+	if r := m.Allocate(uc, sim.AllocOpts{Lifetime: sim.U32(life)}); r == nil || r.Class != wire.ClassSuccess {
+		rec.Inconclusive("udp allocate failed")
+
+		return
+	}
+	up, _ := w.NewPeer("p0", net.IPv4(10, 2, 0, 9).To4(), 7009)
+	m.CreatePermission(uc, up.Addr)
+	pl, _ := w.Net.ListenTCP(net.IPv4(10, 2, 0, 1).To4(), 8000)
+	defer pl.Close() //nolint:errcheck
+	m.CreatePermission(tc, &net.UDPAddr{IP: net.IPv4(10, 2, 0, 1).To4(), Port: 8000})
+	w.Gen.SetDelayKind("conn", 20*time.Second)
+	tid := w.NewTID()
+	b := wire.NewBuilder(wire.MethodConnect, wire.ClassRequest, tid)
+	b.AddXorAddr(wire.AttrXORPeerAddress, net.IPv4(10, 2, 0, 1).To4(), 8000)
+	tc.AddAuth(b)
+	t0 := time.Now()
+	_ = tc.SendRaw(b.Bytes())
+	// the bystander's allocation ends while the dial is pending
+	time.Sleep(time.Duration(life)*time.Second + time.Second - time.Since(t0))
+	w.Settle()
+	st := m.Begin()
+	st.PeerSend(up, mustUDPAddr(m, uc), []byte("after-expiry-during-slow-connect"))
+	st.End()
+	m.CrossCheck()
+	if n := w.Srv.AllocationCount(); n != 1 {
+		rec.Violate("alloc-expiry-late", "slow-connect", "AllocationCount=%d one second after a %d s allocation should have ended (a Connect of another client is dialling a slow peer)", n, life)
+	}
+	w.Gen.SetDelayKind("conn", 0)
+	w.Sleep(25 * time.Second)
+	tc.Collect()
+	if r := tc.TakeResponse(tid); r == nil {
+		rec.Violate("server-wedged", "slow-connect", "the Connect whose dial took 20 s was never answered")
+	} else {
+		rec.FP("slow-connect/answered/%d", codeOfMsg(r))
+	}
+	m.Audit(nil)
+	rec.FP("slow-connect/life=%d", life/5)
+	rec.SetSample(map[string]any{"kind": "slow-connect", "bystander_lifetime_s": life})
+}
+
+func mustUDPAddr(m *sim.Model, c *sim.RawClient) *net.UDPAddr {
+	if a, _ := m.Alloc(c); a != nil && a.RelayUDP != nil {
+		return a.RelayUDP
+	}
+
+	return &net.UDPAddr{IP: sim.RelayIP4, Port: 1}
+}
+
 func runC16(t *testing.T, rng *rand.Rand, rec *sim.Rec, tier string, caseNo int) {
 	cfg := sim.Config{
 		Realm: "verif.test", Users: map[string]string{"alice": "pw-a", "bob": "pw-b"},
@@ -651,6 +728,11 @@ func init() {
 			return 700
 		},
 		Run: func(t *testing.T, rng *rand.Rand, rec *sim.Rec, tier string, caseNo int) {
+			if caseNo%25 == 7 {
+				runSlowConnect(t, rng, rec, tier, caseNo)
+
+				return
+			}
 			if caseNo%6 == 5 {
 				runC16RealClient(t, rng, rec, tier, caseNo)
 
@@ -754,8 +836,13 @@ func runC16RealClient(t *testing.T, rng *rand.Rand, rec *sim.Rec, tier string, c
 			// outbound: Dial through the relay
 			l, _ := w.Net.ListenTCP(peerIP, 8000+i)
 			acc := make(chan net.Conn, 1)
+			greeting := []byte(fmt.Sprintf("220 peer %d speaks first, before the client has bound the data connection\r\n", i))
+			greet := rng.Intn(2) == 0
 			go func() {
 				if c, err := l.Accept(); err == nil {
+					if greet {
+						_, _ = c.Write(greeting) // a banner protocol: the relay holds it until ConnectionBind
+					}
 					acc <- c
 				}
 			}()
@@ -765,6 +852,17 @@ func runC16RealClient(t *testing.T, rng *rand.Rand, rec *sim.Rec, tier string, c
 				_ = l.Close()
 
 				return
+			}
+			if greet {
+				got := make([]byte, len(greeting))
+				_ = dc.SetReadDeadline(time.Now().Add(5 * time.Second))
+				if k, err := io.ReadFull(dc, got); err != nil || !bytes.Equal(got, greeting) {
+					rec.Violate("client-tcp", "dial/greeting", "the peer's greeting (%d bytes, written before the client bound the data connection) arrived as %d bytes %q (%v)", len(greeting), k, got[:k], err)
+					_ = l.Close()
+
+					return
+				}
+				rec.Ev("client-tcp-greetings")
 			}
 			var pe net.Conn
 			select {
@@ -798,6 +896,11 @@ func runC16RealClient(t *testing.T, rng *rand.Rand, rec *sim.Rec, tier string, c
 
 				return
 			}
+			greeting := []byte(fmt.Sprintf("HELLO from inbound peer %d, sent before anybody accepted\n", i))
+			greet := rng.Intn(2) == 0
+			if greet {
+				_, _ = pe.Write(greeting)
+			}
 			_ = alloc.SetDeadline(time.Now().Add(10 * time.Second))
 			ac, err := alloc.AcceptTCP()
 			if err != nil {
@@ -805,6 +908,17 @@ func runC16RealClient(t *testing.T, rng *rand.Rand, rec *sim.Rec, tier string, c
 				_ = pe.Close()
 
 				return
+			}
+			if greet {
+				got := make([]byte, len(greeting))
+				_ = ac.SetReadDeadline(time.Now().Add(5 * time.Second))
+				if k, err := io.ReadFull(ac, got); err != nil || !bytes.Equal(got, greeting) {
+					rec.Violate("client-tcp", "accept/greeting", "the inbound peer's first bytes (%d, sent before AcceptTCP) arrived as %d bytes %q (%v)", len(greeting), k, got[:k], err)
+					_ = pe.Close()
+
+					return
+				}
+				rec.Ev("client-tcp-greetings")
 			}
 			if ac.RemoteAddr().String() != pe.LocalAddr().String() {
 				rec.Violate("client-tcp", "accept-addresses", "AcceptTCP attributes the connection to %s, it came from %s", ac.RemoteAddr(), pe.LocalAddr())
